@@ -9,6 +9,9 @@
 #include "../core/shim.h"
 #include "simbackend.h"
 
+/// the repository's sample driver (solvers/visitor/visitorbackend.cc)
+std::unique_ptr<mp::BasicBackend> CreateVisitorBackend();
+
 namespace drvsim {
 
 static std::vector<Property>& registry() { static std::vector<Property> r; return r; }
@@ -92,7 +95,8 @@ RunRecord run_driver(const sim::Json& sc) {
   g.begin();
   if (sigsetjmp(jb, 1) == 0) {
     try {
-      rec.ret = mp::RunBackendApp(argv.data(), CreateSimBackend);
+      rec.ret = sc["driver"].as_str() == "visitor" ? mp::RunBackendApp(argv.data(), CreateVisitorBackend)
+                                                   : mp::RunBackendApp(argv.data(), CreateSimBackend);
     } catch (const std::exception& e) {
       rec.escaped = true; rec.escaped_what = e.what();
     } catch (...) {
